@@ -475,7 +475,7 @@ impl Check for AddrCheck {
 
     fn budget(_id: &str, tier: Tier) -> Budget {
         match tier {
-            Tier::Quick => Budget { cases: 60_000, max_bytes: 400 },
+            Tier::Quick => Budget { cases: 100_000, max_bytes: 400 },
             Tier::Thorough => Budget { cases: 800_000, max_bytes: 500 },
         }
     }
